@@ -107,6 +107,13 @@ CHECKS = {
         note="trusted: linearity of the conversions in the unit constants (checked: uniform integer exponent), the CODATA values and the unit table typed into checks/c04.py; coverage is per executed path",
         technique="symbolic run of the real readers/writers with unit constants as indeterminates against a unit table (contracts on factors), exhaustive check of constants, absolute probes",
     ),
+    "C05": dict(
+        category="other",
+        text="Proved on every path of the real molden._fix_molden_from_buggy_codes (symbolic execution with z3, orbital coefficients arbitrary real matrices of arbitrary size, restricted / unrestricted / generalized orbitals, the norm test an arbitrary predicate, the _fix_* helpers arbitrary functions that may return None where the code allows it): a file that passes the norm test as it stands is returned untouched without warning after one test; whatever is returned (basis, alpha and beta coefficients, read back through the real MolecularOrbitals getters) is exactly the candidate of the last test and that test succeeded after all earlier ones failed; every test examines both spin blocks of one candidate; candidates are tried in the documented order; an accepted correction is announced by exactly one LoadWarning naming it; LoadError is raised only after every candidate failed and before anything was modified; generalized orbitals are rejected. Bounded: the real _is_normalized_properly with an identity overlap sees every alpha and beta column (every position, <= 3+3 orbitals, thresholds 1e-6..1e-2); bounded/vendor_probe.py encodes true wavefunctions the way ORCA, PSI4 <= 1.0, Turbomole, CFOUR 2.1, PSI4 <= 1.3.2 and unnormalised contractions deviate, as Molden (AU and Angs) and Molekel, and compares what iodata loads with the truth by an independent evaluator, incl. geometry scans in one process and corrupted encodings that must be rejected. The numerical correction factors and the selection of the right branch when several candidates pass are only covered by the bounded part, hence `other`.",
+        design_ref="DESIGN.md 6/C05",
+        note="trusted: callee contracts of the cascade (purity of the norm test, _fix_* helpers return new objects), C12 (coeffsa/coeffsb views), vendor encodings typed from the documentation of the deviations",
+        technique="contract-based deductive verification of the correction cascade (AST symbolic execution -> z3, callees under contract) + bounded norm-test and vendor-encoding probes with an independent orbital evaluator",
+    ),
     "C06": dict(
         category="proof",
         text="The real 1-D kernel is run on sympy symbols for all 64 (n1,n2)<=7 and equals the Gaussian moment as an exact polynomial identity (all real centres/exponents); normalisation constants for all 120 Cartesian triples l<=7 and the Cartesian-to-pure tables tfs[0..7] are decided exhaustively against the definitions of docs/basis.rst (solid harmonics rebuilt from the associated-Legendre definition, independent of tools/harmonics.py); error contract, segmentation prologue, convention epilogue (reverse=True on rows by basis 0 and columns by basis 1) and the screening bound (z3 lemma) of compute_overlap are structural obligations. The assembled floating-point matrix (symmetry, PSD, transpose, translation, conventions, equality with the inner products) is a bounded stand-in against an independent oracle.",
